@@ -419,11 +419,33 @@ def glue_source(d, has_builder):
     return o
 
 
+def macro_wrapped(d, lines):
+    """the same declaration produced by a macro_rules! expansion, the struct's name and its first field's name passed in as
+    `ident` fragments (register-definition macros of HAL crates look like this)"""
+    head = "pub struct %s {" % d["name"]
+    k = max(j for j, l in enumerate(lines) if l == head)
+    body = list(lines)
+    body[k] = "pub struct $s {"
+    params, args = ["$s:ident"], [d["name"]]
+    if d["fields"]:
+        fname = d["fields"][0]["name"]
+        for j in range(k + 1, len(body)):
+            if body[j].startswith("    %s: " % fname):
+                body[j] = "    $f: " + body[j][len("    %s: " % fname):]
+                params.append("$f:ident")
+                args.append(fname)
+                break
+    return (["macro_rules! mk_decl {", "    (%s) => {" % ", ".join(params)] + ["        " + l for l in body]
+            + ["    };", "}", "mk_decl!(%s);" % ", ".join(args)])
+
+
 def module_source(d, has_builder, glue=True):
     # the declaration lives in its own module; the glue in a sibling module, so that only the PUBLIC
     # generated API is reachable from the glue (a private accessor is a compile error here)
     o = ["#[allow(dead_code, unused_imports, unused_variables, unreachable_patterns, clippy::all)]", "pub mod d%d {" % d["id"], "    use arbitrary_int::*;", "    use bitbybit::{bitfield, bitenum};"]
     lines = decl_source(d)
+    if d.get("wrap") == "macro":
+        lines = macro_wrapped(d, lines)
     first_decl_line = len(o)
     o.extend("    " + l for l in lines)
     last_decl_line = len(o) - 1
